@@ -55,6 +55,30 @@ func c05Gen(r *rand.Rand, tier string, idx int) any {
 		n = 1 + r.Intn(3) // short scripts: all cut sets
 	}
 	plan := genScript(r, c.Mode == "vi", n)
+	if r.Intn(5) == 0 {
+		// two multi-byte characters next to each other, so that two consecutive reads can both
+		// end in the middle of a character
+		at := r.Intn(len(plan) + 1)
+		w := sess.Step{W: pick(r, []string{"€ł", "世界", "a€łb", "😀€", "éü"}), Tag: "word"}
+		if c.Mode == "vi" {
+			w.W = "i" + w.W + "\x1b"
+			w.Tag = "viword"
+		}
+		plan = append(plan[:at], append([]sess.Step{w}, plan[at:]...)...)
+	}
+	if c.Mode == "emacs" && r.Intn(5) == 0 && len(plan) >= 2 {
+		// part of the script is recorded as a keyboard macro and replayed: what is recorded
+		// must not depend on where the reads were cut
+		a := r.Intn(len(plan))
+		b := a + 1 + r.Intn(len(plan)-a)
+		var np []sess.Step
+		np = append(np, plan[:a]...)
+		np = append(np, sess.Step{W: "\x18(", Tag: "macro"})
+		np = append(np, plan[a:b]...)
+		np = append(np, sess.Step{W: "\x18)", Tag: "macro"}, sess.Step{W: "\x18e", Tag: "macro"})
+		np = append(np, plan[b:]...)
+		plan = np
+	}
 	// numeric arguments <= 999: digits are limited in digit tokens and words only (bound key
 	// sequences that contain digits, e.g. ESC[1;5C, are left intact)
 	digits := 0
@@ -99,6 +123,29 @@ func c05Gen(r *rand.Rand, tier string, idx int) any {
 		return cs
 	}
 	c.Scheds = append(c.Scheds, c05Sched{Kind: "byte", Cuts: all()}, c05Sched{Kind: "whole"})
+	// every read ends after the first byte of a multi-byte character (and the next one starts
+	// with its remaining bytes), nowhere else
+	var mid []int
+	for i := 0; i+1 < nb; i++ {
+		if script[i] >= 0xc0 {
+			mid = append(mid, i+1)
+		}
+	}
+	if len(mid) > 0 {
+		c.Scheds = append(c.Scheds, c05Sched{Kind: "midchar", Cuts: mid})
+		if len(mid) > 1 {
+			// and after the second byte for characters of three bytes or more
+			var mid2 []int
+			for i := 0; i+2 < nb; i++ {
+				if script[i] >= 0xe0 {
+					mid2 = append(mid2, i+2)
+				} else if script[i] >= 0xc0 {
+					mid2 = append(mid2, i+1)
+				}
+			}
+			c.Scheds = append(c.Scheds, c05Sched{Kind: "midchar", Cuts: mid2})
+		}
+	}
 	nr := 2
 	if tier == "thorough" {
 		nr = 6
@@ -253,6 +300,12 @@ func c05RunOne(env *fw.Env, c *c05Case, chunks []string, sc *c05Sched) (*c05Outc
 			}
 			// tokens are joined into one write; a boundary directly after an ESC byte is never
 			// removed (stop after a token that ends with ESC)
+			// Vi modes: the boundary directly after an ESC byte is kept as in the base schedule.
+			// While the keys of a chunk that ends with ESC may still be waiting in the library's
+			// buffer, type-ahead would be queued right behind that ESC: not delivered here.
+			if c.Mode == "vi" && strings.HasSuffix(s.LastDelivered(), "\x1b") && len(s.LastDelivered()) > 1 {
+				return false
+			}
 			var ta []byte
 			out.From = s.StepsTaken()
 			for i := 0; i < sc.K; i++ {
